@@ -17,7 +17,7 @@ MCCovLimits == {0, 58, 68}
 (* Vacuity guard (run with -workers 1 on a small bound): every kind of operation is taken in some
    behaviour, and a swap with several steps / a crossing / a wrap-around occurs.               *)
 OpIndex == [init |-> 10, open |-> 11, close |-> 12, increase |-> 13, decrease |-> 14, update |-> 15,
-            collect |-> 16, collect_protocol |-> 17, swap |-> 18]
+            collect |-> 16, collect_protocol |-> 17, swap |-> 18, forget |-> 10]
 CovInit == Init /\ \A i \in 10..24 : TLCSet(i, FALSE)
 CovSpec == CovInit /\ [][Next]_vars
 Tally ==
